@@ -15,6 +15,7 @@ const (
 	vNull
 	vBool
 	vArr
+	vUnset = 7 // an unset variable
 )
 
 type c19Val struct {
@@ -101,7 +102,9 @@ func c19Pattern(name string, idents *int) c19Pat {
 		*idents++
 		return c19Pat{kind: pIdent, text: "v" + itoa(*idents)}
 	}
-	switch vh.Choose(name, 8) {
+	switch vh.Choose(name, 9) {
+	case 8: // binds first, compares afterwards: a mismatch comes after a name was bound
+		return c19Pat{kind: pArr, items: []c19Pat{id(), c19LitNumTied(name + "d")}}
 	case 0:
 		return c19LitNumTied(name + "d")
 	case 1:
@@ -211,6 +214,8 @@ func c19Same(c *lang.Cell, v c19Val) bool {
 		return isNull(c)
 	case vBool:
 		return isBool(c) && vh.Iff(*c.Value.Bool, v.b)
+	case vUnset:
+		return c.Value.Tag == lang.ValueUnknown
 	}
 	if c.Value.Tag != lang.ValueArray || len(c.Value.Array) != len(v.items) {
 		return false
@@ -232,6 +237,7 @@ func VHC19Match() {
 	type caseT struct {
 		alts  []c19Pat
 		block bool
+		names []string
 	}
 	var cases []caseT
 	nid := 0
@@ -253,18 +259,22 @@ func VHC19Match() {
 			src += p.render()
 		}
 		src += " => "
-		// the body names the case and the first alternative's bindings (alternatives of
-		// one case bind different names, so the body only uses names every alternative binds: none)
+		// the body names the case and lists every name ANY alternative of the case can
+		// bind: names the matching alternative did not bind must be unset there (a name
+		// bound by an earlier, failed alternative must not leak)
+		var names []string
+		for _, a := range c.alts {
+			names = a.idents(names)
+		}
+		c.names = names
 		if c.block {
 			src += "{ printf('b" + itoa(ci) + "') }"
-		} else if nalts == 1 {
+		} else {
 			src += "[" + itoa(ci)
-			for _, id := range c.alts[0].idents(nil) {
+			for _, id := range names {
 				src += ", " + id
 			}
 			src += "]"
-		} else {
-			src += "[" + itoa(ci) + "]"
 		}
 		if ci+1 < ncases {
 			src += ", "
@@ -294,8 +304,15 @@ func VHC19Match() {
 			}
 			vh.Assert(out == "", "C19: no other body runs")
 			want := c19Val{kind: vArr, items: []c19Val{{kind: vNum, num: float64(ci)}}}
-			if len(c.alts) == 1 {
-				want.items = append(want.items, binds...)
+			bound := p.idents(nil)
+			for _, name := range c.names {
+				v := c19Val{kind: vUnset}
+				for bi, bn := range bound {
+					if bn == name {
+						v = binds[bi]
+					}
+				}
+				want.items = append(want.items, v)
 			}
 			vh.Assert(c19Same(cell, want), "C19: the value is that of the first matching case's body, with the pattern's names bound")
 			return
